@@ -22,7 +22,7 @@ RULE = ("Random tier: Hypothesis draws a size n (1..70 quick, ..200 thorough, bi
 ASSUMPTIONS = ["indices are integers or FRACTIONAL floats k+0.5 (which are outside 0..n-1 by definition and must be refused); "
                "values are integers / bools; other types are outside the property"]
 
-VALUES = [0, 1, True, False, 2, -1, 3, 0.5, 1.5, -0.5]
+VALUES = [0, 1, True, False, 2, -1, 3, 0.5, 1.5, -0.5, 1.0, 0.0]
 
 
 def budget(tier):
@@ -174,6 +174,13 @@ def _apply(ctx, b, model, op):
         # a fractional position is never one of 0..n-1: it must be refused (IndexError / TypeError / ValueError), nothing may change
         status, r = ctx.lib("C20.rejects", _do(b, kind, idx, val), allow=(IndexError, ValueError, TypeError))
         ctx.check("C20.rejects", status == "exc", f"{kind} at the fractional index {idx!r} on size {n} was accepted (returned {r!r})")
+        return False, True
+    if kind == "assign" and isinstance(val, float) and val in (0.0, 1.0) and 0 <= idx < n:
+        # the values 0 / 1 in another numeric type: taken as the bit they equal, or refused - but not refused AND changed
+        status, r = ctx.lib("C20.rejects", _do(b, kind, idx, val), allow=(IndexError, ValueError, TypeError))
+        if status == "ok":
+            model[idx] = int(val)
+            return True, False
         return False, True
     valid = 0 <= idx < n and (kind != "assign" or (val in (0, 1) and not isinstance(val, float)))
 
